@@ -10,7 +10,7 @@
    EVERY history, timeout, payload and number of callbacks.
    Outside the theorems (claimed partial): real timers and the tie when a message and the
    timer are ready at the same instant (the model lets the timer win). *)
-From GoRes Require Import Client.Spec Client.Proofs.
+From GoRes Require Import Client.Spec Client.Proofs Client.ProofsFormat.
 Open Scope Z_scope.
 
 (* the first message that is not a pre-response, if it arrives before the deadline then in
@@ -108,9 +108,9 @@ Proof. exact service_format_understood_pf. Qed.
 (* ---- non-vacuity ---- *)
 Definition ms (n : Z) : Z := n * 1000000.
 Definition ex_pre1 : bytes := timeout_payload 300.                       (* timeout:"300" *)
-Definition ex_bad : bytes := [116; 105; 109; 101; 111; 117; 116; 58; 51; 48; 48].   (* timeout:300 *)
-Definition ex_res1 : bytes := [123; 34; 114; 101; 115; 117; 108; 116; 34; 58; 49; 125].  (* {"result":1} *)
-Definition ex_res2 : bytes := [123; 34; 114; 101; 115; 117; 108; 116; 34; 58; 50; 125].  (* {"result":2} *)
+Definition ex_bad : bytes := [116; 105; 109; 101; 111; 117; 116; 58; 51; 48; 48]%N.   (* timeout:300 *)
+Definition ex_res1 : bytes := [123; 34; 114; 101; 115; 117; 108; 116; 34; 58; 49; 125]%N.  (* {"result":1} *)
+Definition ex_res2 : bytes := [123; 34; 114; 101; 115; 117; 108; 116; 34; 58; 50; 125]%N.  (* {"result":2} *)
 
 (* T = 200 ms; announcement of 300 ms at 40; junk at 120; response at 320 (> 200, < 340); a later response is ignored *)
 Example answered_after_extension :
